@@ -272,14 +272,24 @@ fn judge_step(
     if size.iter().sum::<usize>() != n {
         return Err(("size-mismatch", format!("counts {:?} do not sum to n={}", size, n)));
     }
+    // a cluster's sum is a sum over its members: it carries roundings of the members' magnitudes only (one row of 1e20
+    // in another cluster must not excuse an error of 1e4 in this one)
+    let mut member_scale = vec![vec![0.0f64; p]; k];
+    for i in 0..n {
+        for c in 0..p {
+            if data[i][c].is_finite() {
+                member_scale[y[i]][c] = member_scale[y[i]][c].max(data[i][c].abs());
+            }
+        }
+    }
     for j in 0..k {
         for c in 0..p {
             let e = (sums[j][c] - ref_sums[j][c]).abs();
+            let tsum = tol.sum_c(member_scale[j][c]);
             if s > 0.0 {
                 rep.max(if f32m { "sum_err_rel_f32" } else { "sum_err_rel_f64" }, e / (s * n as f64));
-                rep.max(if f32m { "sum_err_over_column_tol_f32" } else { "sum_err_over_column_tol_f64" }, e / tol.sum_c(col_scale(data, c)));
+                rep.max(if f32m { "sum_err_over_member_tol_f32" } else { "sum_err_over_member_tol_f64" }, e / tsum);
             }
-            let tsum = tol.sum_c(col_scale(data, c));
             if !(e <= tsum) {
                 return Err((
                     "sum-mismatch",
@@ -415,6 +425,8 @@ impl C12 {
                     _ => KMeansParameters { k: case.k, max_iter: case.max_iter },
                 };
                 // ctor / 3: the inherent functions or the estimator traits of smartcore::api
+                // (half of the time the value handed over is a clone of the one that was built)
+                let params = if case.tape.seed % 2 == 1 { params.clone() } else { params };
                 T::kmeans_fit(data, case.backend, params, case.ctor / 3 == 1)
             })
         };
@@ -497,11 +509,13 @@ impl C12 {
                                 for c in 0..p {
                                     let mean = sums[j][c] / cnt[j] as f64;
                                     let e = (cents[j][c] - mean).abs();
+                                    // judged on the scale of the cluster's own members in this column
+                                    let ms = (0..n).filter(|i| y[*i] == j && data[*i][c].is_finite()).map(|i| data[i][c].abs()).fold(0.0f64, f64::max);
                                     if s > 0.0 {
                                         rep.max(if case.f32m { "centroid_mean_err_rel_f32" } else { "centroid_mean_err_rel_f64" }, e / s);
-                                        rep.max(if case.f32m { "centroid_mean_err_over_column_tol_f32" } else { "centroid_mean_err_over_column_tol_f64" }, e / tol.mean_c(col_scale(data, c)));
+                                        rep.max(if case.f32m { "centroid_mean_err_over_member_tol_f32" } else { "centroid_mean_err_over_member_tol_f64" }, e / tol.mean_c(ms));
                                     }
-                                    if !(e <= tol.mean_c(col_scale(data, c))) {
+                                    if !(e <= tol.mean_c(ms)) {
                                         rep.fail(
                                             "centroid-not-mean",
                                             "model",
@@ -776,6 +790,15 @@ fn gen_data(r: &mut Xo, n: usize, p: usize, f32m: bool) -> (Vec<Vec<f64>>, &'sta
                 *v = *v * cs[j] + co[j];
             }
         }
+    }
+    // sometimes one row is an outlier by many orders of magnitude in one column (a sentinel value, a unit mix-up): the
+    // other clusters' sums and means must not feel it (their members are judged on their own scale)
+    if data.len() >= 3 && r.chance(0.04) {
+        let i = r.below(data.len() as u64) as usize;
+        let c = r.below(p as u64) as usize;
+        let f = if f32m { 1e8 } else { *r.pick(&[1e17, 1e20]) };
+        let sign = if r.chance(0.5) { -1.0 } else { 1.0 };
+        data[i][c] = sign * data[i][c].abs().max(1.0).min(1e3) * f;
     }
     if f32m {
         for row in data.iter_mut() {
